@@ -16,6 +16,7 @@ TRUSTED_BASE = [
     "hand-written Gallina model of the routine, tied to the code by the correspondence run (results and load traces)",
     "extraction: ExtrOcamlBasic only (Extract Inductive for bool, option, unit, prod, list, sumbool, sumor); no Extract Constant; OCaml 4.13.1 ocamlopt; model/run.ml driver",
     "Rust harness (harness/), hooks in /repo guarded by cfg(memchr_verif), tools/*.py diff and oracles",
+    "extraction and driver are cross-checked, not only trusted: a sample of each run's cases is re-evaluated by vm_compute inside Coq (tools/vmcheck.py) where the property lists vm_compute_cases",
 ]
 
 PROPS = {}
@@ -258,3 +259,8 @@ for _p in ("C01", "C02", "C06", "C07", "C09", "C11", "C12", "C03", "C04", "C10",
 for _p in ("C01", "C02", "C06", "C07", "C09", "C11", "C12", "C03", "C04", "C10", "C19"):
     PROPS[_p]["emu_quick"] = True          # the emulated pass costs 10-20 s: it runs in both tiers
     PROPS[_p]["emu_max_quick"] = 15000
+
+# extraction cross-check (tools/vmcheck.py): a sample of the cases is evaluated by vm_compute inside Coq
+for _p in ("C01", "C02", "C07", "C03", "C04", "C09", "C10", "C12", "C18"):
+    PROPS[_p]["vmcheck"] = True
+    PROPS[_p]["coq_files"] = PROPS[_p]["coq_files"] + ["Cases/Eval.v"]
